@@ -19,7 +19,7 @@ ASSUMPTIONS = [
     "gpg cases are bounded by the key bundles of the repository's test keyring; OpenPGP parsing is trusted",
     "files that are not loadable metadata abort verification (DESIGN 4.3) and are not generated here",
 ]
-TAMPERS = [None] * 9 + ["content", "sig", "unsigned", "other_family", "float"]
+TAMPERS = [None] * 9 + ["content", "sig", "unsigned", "other_family", "float", "illformed_signed"]
 
 
 def authorised_main(step_pubkeys, keystore, kid_name, signer, link_fmt):
@@ -274,7 +274,7 @@ def one_case(rng, res, gpg, combo=None):
                                 "authorised, untampered, validly signed link for the focus step", i)
         if acc and "evil" in i["result"]["ok"]:
             vcommon.oracle_fail(res, scn, desc, "artifacts of a link that must not count reached the summary link", i)
-        unloadable = False
+        unloadable = any(f["tamper"] == "illformed_signed" for f in desc["files"])      # (validly signed, but not link metadata)
         for path, content in scn.files.items():
             if isinstance(content, dict) and "signed" in content:
                 _c, err = scen.payload_canon_by_model(content)
@@ -313,6 +313,12 @@ def shard(seed, idx, n, tier):
         for g in range(idx, len(grid), 16):
             one_case(rng, res, True, combo=grid[g])
             res.count("gpg_grid")
+    if idx < 6 and W.gpg_available():
+        # a step that asks for two functionaries and gets: two agreeing links of ONE gpg functionary (two of its subkeys)
+        # and a link another functionary recorded for another step (family shared with C08) - one functionary, not two
+        from harness.props import c08
+        c08.one_case(core.rng_for(seed, "c08-shared", idx), res, force="replay_plus_two_subkey_links" if idx % 2 == 0 else "double_replay")
+        res.count("family_replay_and_subkeys")
     if not W.gpg_available():
         res.notes.append("gpg not available: gpg families skipped")
     return res
